@@ -116,7 +116,8 @@ def spec : List (String × String × String) := [
   ("poscar", "cellvecs", "angstrom"),         -- VASP POSCAR: lattice vectors in Å (× scaling)
   ("chgcar", "atcoords", "angstrom"),         -- VASP CHGCAR header = POSCAR
   ("chgcar", "cellvecs", "angstrom"),
-  ("chgcar", "cube.data", "per-1000-cubic-angstrom"),  -- VASP CHGCAR stores density × cell volume; the probe fixture CHGCAR.oxygen has a 10 Å cubic cell
+  ("chgcar", "cube.data", "per-1000-cubic-angstrom"),
+  ("chgcar-lefthanded", "cube.data", "per-1000-cubic-angstrom"),  -- same fixture with two lattice vectors exchanged: the volume is an absolute value  -- VASP CHGCAR stores density × cell volume; the probe fixture CHGCAR.oxygen has a 10 Å cubic cell
   ("locpot", "cellvecs", "angstrom"),         -- VASP LOCPOT header = POSCAR
   ("locpot", "cube.data", "electronvolt"),    -- VASP LOCPOT: local potential in eV
   ("gromacs", "atcoords", "nanometer"),       -- GROMACS gro: positions in nm
